@@ -117,6 +117,7 @@ type Vaxis struct {
 	cursorNext       cursorState
 	cursorLast       cursorState
 	closed           bool
+	closeMu          sync.Mutex // guards closed
 	suspended        bool
 	refresh          bool
 	kittyFlags       int
@@ -215,7 +216,7 @@ func New(opts Options) (*Vaxis, error) {
 	vx.chClipboard = make(chan string)
 	vx.chSigWinSz = make(chan os.Signal, 1)
 	vx.chSigKill = make(chan os.Signal, 1)
-	vx.chCursorPos = make(chan [2]int)
+	vx.chCursorPos = make(chan [2]int, 1)
 	vx.chQuit = make(chan bool)
 	vx.chSizeDone = make(chan bool, 1)
 	vx.charCache = make(map[string]int, 256)
@@ -417,11 +418,17 @@ func (vx *Vaxis) Events() chan Event {
 // Close shuts down the event loops and returns the terminal to it's original
 // state
 func (vx *Vaxis) Close() {
+	// Close may be called concurrently (the application, the kill-signal
+	// handler and the panic handler of the input goroutine all call it):
+	// exactly one caller shuts down, the others return
+	vx.closeMu.Lock()
 	if vx.closed {
+		vx.closeMu.Unlock()
 		return
 	}
-	vx.PostEvent(QuitEvent{})
 	vx.closed = true
+	vx.closeMu.Unlock()
+	vx.PostEvent(QuitEvent{})
 
 	defer close(vx.chQuit)
 
@@ -535,6 +542,12 @@ outerNew:
 				vx.screenLast.buf[row][col].sixel = true
 				reposition = true
 				continue
+			}
+			if col+vx.advance(next) >= len(vx.screenNext.buf[row]) {
+				// The glyph is wider than the rest of the row. What a
+				// terminal does with it (wrap, clip, scroll) differs
+				// between terminals: show a blank in its style instead
+				next.Character = Character{Grapheme: " ", Width: 1}
 			}
 			if next == vx.screenLast.buf[row][col] && !vx.refresh && col >= dirty {
 				reposition = true
@@ -830,9 +843,15 @@ func (vx *Vaxis) handleSequence(seq ansi.Sequence) {
 					log.Error("not enough DSRCPR params")
 					return
 				}
-				vx.chCursorPos <- [2]int{
+				// CursorPosition may have timed out after the flag
+				// was loaded above: nobody would receive then, so
+				// never block the input loop on the hand-off
+				select {
+				case vx.chCursorPos <- [2]int{
 					seq.Parameters[0][0],
 					seq.Parameters[1][0],
+				}:
+				default:
 				}
 				return
 			}
@@ -1518,6 +1537,11 @@ func (vx *Vaxis) showCursor() string {
 // -1,-1 if the query times out or fails
 func (vx *Vaxis) CursorPosition() (row int, col int) {
 	// DSRCPR - reports cursor position
+	// Drop an answer left behind by a request that timed out
+	select {
+	case <-vx.chCursorPos:
+	default:
+	}
 	atomicStore(&vx.reqCursorPos, true)
 	_, _ = io.WriteString(vx.console, dsrcpr)
 	timeout := time.NewTimer(50 * time.Millisecond)
